@@ -12,6 +12,12 @@
 #include <openssl/rsa.h>
 #include <openssl/bio.h>
 #include "vf.h"
+#ifdef PROP_C18
+extern void vf_c18_observe(void);
+#define VF_OBSERVE() vf_c18_observe()
+#else
+#define VF_OBSERVE() ((void)0)
+#endif
 #include "openssl_stubs.h"
 
 struct evp_md_st { int id; };
@@ -23,6 +29,7 @@ struct ECDSA_SIG_st { BIGNUM *r, *s; int live; };
 static struct evp_md_st md256 = { 256 }, md384 = { 384 }, md512 = { 512 }, mdn = { 0 };
 const EVP_MD *vo_sha256 = &md256, *vo_sha384 = &md384, *vo_sha512 = &md512, *vo_mdnull = &mdn;
 
+int vo_oracle_failed;
 int vo_key_type;
 unsigned vo_verify_calls, vo_sign_calls, vo_hmac_calls;
 const EVP_MD *vo_md;
@@ -101,6 +108,7 @@ static int vo_init(EVP_MD_CTX *ctx, EVP_PKEY_CTX **pctx, const EVP_MD *type, EVP
 
 int EVP_DigestVerifyInit(EVP_MD_CTX *ctx, EVP_PKEY_CTX **pctx, const EVP_MD *type, ENGINE *e, EVP_PKEY *pkey)
 {
+	VF_OBSERVE();
 	return vo_init(ctx, pctx, type, pkey);
 }
 
@@ -131,6 +139,7 @@ int EVP_PKEY_CTX_set_rsa_pss_saltlen(EVP_PKEY_CTX *ctx, int saltlen)
 
 int EVP_DigestVerify(EVP_MD_CTX *ctx, const unsigned char *sigret, size_t siglen, const unsigned char *tbs, size_t tbslen)
 {
+	VF_OBSERVE();
 	int r;
 	__CPROVER_assert(ctx == &the_ctx && vo_init_ok, "M4: EVP_DigestVerify after a successful init");
 	vo_verify_calls++;
@@ -155,7 +164,7 @@ BIGNUM *BN_bin2bn(const unsigned char *s, int len, BIGNUM *ret)
 
 	__CPROVER_assert(ret == NULL && len >= 0 && (s != NULL || len == 0), "M4: BN_bin2bn arguments");
 	VF_BOUND(len <= VO_IMAX, "BIGNUM longer than VO_IMAX");
-	if (nondet_bool())
+	if (VO_FAILS())
 		return NULL;
 	b = malloc(sizeof(*b));
 	__CPROVER_assume(b != NULL);
@@ -305,6 +314,7 @@ ECDSA_SIG *d2i_ECDSA_SIG(ECDSA_SIG **psig, const unsigned char **pp, long len)
 /* ---- signing oracle ---- */
 int EVP_DigestSign(EVP_MD_CTX *ctx, unsigned char *sigret, size_t *siglen, const unsigned char *tbs, size_t tbslen)
 {
+	VF_OBSERVE();
 	unsigned i;
 	__CPROVER_assert(ctx == &the_ctx && vo_init_ok && siglen != NULL, "M4: EVP_DigestSign after a successful init");
 	if (nondet_bool())
@@ -332,6 +342,7 @@ int EVP_DigestSign(EVP_MD_CTX *ctx, unsigned char *sigret, size_t *siglen, const
 unsigned char *HMAC(const EVP_MD *evp_md, const void *key, int key_len, const unsigned char *data, size_t data_len,
 		    unsigned char *md, unsigned int *md_len)
 {
+	VF_OBSERVE();
 	unsigned i, n = evp_md == vo_sha256 ? 32 : evp_md == vo_sha384 ? 48 : 64;
 	static unsigned char static_md[64];
 	__CPROVER_assert(evp_md != NULL && md_len != NULL && (key != NULL || key_len == 0), "M4: HMAC arguments");
